@@ -50,6 +50,9 @@ pub enum Op {
     Revoke(usize),
     ExpireAccount,
     LogoutParent,
+    /// the credential the parent login session was made with is replaced (C36): the login
+    /// session is revoked in the same change
+    ReplaceCredential,
     /// 0: 61 s (code lifetime), 1: past the grace window, 2: past the access token lifetime
     Tick(usize),
     /// revoke, on the client's key object, the key that signed the access token of set j
@@ -68,6 +71,10 @@ pub struct Cfg {
     pub legacy_crypto: bool,
     /// offer revocation of the signing key of an issued access token
     pub key_revocation: bool,
+    /// offer replacement of the user's credential; report only violations whose key starts
+    /// with one of these prefixes (empty = all)
+    pub cred_replacement: bool,
+    pub only_keys: Vec<&'static str>,
 }
 
 pub struct Code {
@@ -205,6 +212,9 @@ impl OAuthW {
     }
 
     fn viol(&mut self, k: &str, what: String) {
+        if !self.cfg.only_keys.is_empty() && !self.cfg.only_keys.iter().any(|p| k.starts_with(p)) {
+            return;
+        }
         self.pending.push((k.to_string(), what));
     }
 
@@ -300,6 +310,9 @@ impl World for OAuthW {
             }
             if self.parent_logged_out.is_none() {
                 v.push(Op::LogoutParent);
+                if self.cfg.cred_replacement {
+                    v.push(Op::ReplaceCredential);
+                }
             }
         }
         for &t in &self.cfg.ticks {
@@ -457,6 +470,13 @@ impl World for OAuthW {
             Op::LogoutParent => {
                 let Some(sid) = self.uat_session else { return "machinery:no session".into() };
                 let r = self.idm.write(ct, |w| w.account_destroy_session_token(&DestroySessionTokenEvent { ident: identity_internal(), target: person_uuid(1), token_id: sid }));
+                if r.is_ok() {
+                    self.parent_logged_out = Some(self.now);
+                }
+                opstr(&r)
+            }
+            Op::ReplaceCredential => {
+                let r = self.idm.replace_primary(ct, person_uuid(1), crate::idmfx::PW_NEW);
                 if r.is_ok() {
                     self.parent_logged_out = Some(self.now);
                 }
